@@ -57,6 +57,7 @@ static int in_exec_region (void *p)
 }
 
 /* compile p for target t with flags and check the result/state contract */
+static int g_noreset;
 static void try_compile (OrcProgram * p, int t, unsigned flags, int flagkind, const char *sig, const char *text, int runnable)
 {
   OrcCompileResult r;
@@ -66,7 +67,7 @@ static void try_compile (OrcProgram * p, int t, unsigned flags, int flagkind, co
   snprintf (key, sizeof (key), "C05|died|%s|%s", tnames[t], sig);
   v_case (g_idx, key, text);
   v_watchdog (20);
-  orc_program_reset (p);
+  if (!g_noreset) orc_program_reset (p);	/* second pass of the limit space: recompile over whatever the previous compile left */
   r = orc_program_compile_full (p, targets[t], flags);
   st_compiles++;
   native = p->code_exec && p->code_exec != (void *) orc_executor_emulate;
@@ -222,7 +223,16 @@ static void space1 (long start)
 static void limits_case (OrcProgram * p, const char *sig, long start)
 {
   long idx = g_idx++;
-  if (idx >= start && (idx % nshards) == shard) { st_programs++; all_targets (p, sig, sig, 1); }
+  if (idx >= start && (idx % nshards) == shard) {
+    st_programs++;
+    all_targets (p, sig, sig, 1);
+    /* again without orc_program_reset() between the compiles: a compile that succeeds for one target is followed by one
+     * that fails (fatally, or not) for the next on the same program object, then the program is freed */
+    g_noreset = 1;
+    all_targets (p, sig, sig, 0);
+    all_targets (p, sig, sig, 0);
+    g_noreset = 0;
+  }
   orc_program_free (p);
 }
 
@@ -455,6 +465,30 @@ static void space2 (long start)
       orc_program_append_ds_str (p, szs == 2 ? "copyw" : "copyl", "d1", "t1");
       snprintf (sig, sizeof (sig), "bulky=%s*%d", bulky[k], n);
       limits_case (p, sig, start);
+    }
+  }
+  /* a program that compiled is extended by an instruction that makes the next compile fail at once (size mismatch,
+   * unknown operand sizes) and is compiled again without a reset: the fatal result must leave no code object behind */
+  {
+    int t;
+    for (t = 0; t < NT; t++) for (k = 0; k < 2; k++) {
+      long idx = g_idx++;
+      OrcProgram *p;
+      if (!targets[t]) continue;
+      if (idx < start || (idx % nshards) != shard) continue;
+      p = orc_program_new_dss (2, 2, 2);
+      orc_program_set_name (p, "xc2r");
+      orc_program_append_str (p, "addw", "d1", "s1", "s2");
+      snprintf (sig, sizeof (sig), "recompile-after-%s", k ? "x2-x4" : "size-mismatch");
+      st_programs++;
+      try_compile (p, t, orc_target_get_default_flags (targets[t]), 0, sig, sig, 1);
+      if (k == 0) orc_program_append_str (p, "addl", "d1", "s1", "s2");
+      else orc_program_append_2 (p, "addb", ORC_INSTRUCTION_FLAG_X2 | ORC_INSTRUCTION_FLAG_X4, ORC_VAR_D1, ORC_VAR_S1, ORC_VAR_S2, -1);
+      g_noreset = 1;
+      try_compile (p, t, orc_target_get_default_flags (targets[t]), 0, sig, sig, 0);
+      try_compile (p, t, orc_target_get_default_flags (targets[t]), 0, sig, sig, 0);
+      g_noreset = 0;
+      orc_program_free (p);
     }
   }
   /* text that ends up in the listing: program and variable names around the sizes of the formatting buffers (every
